@@ -190,6 +190,10 @@ def api_case(rec, pa, pb, bi, where, layout, chunk, tkind, seed, only=False, pre
     phi = np.array([[1.0, 2.0, 4.0], [3.0 + seed % 2, -1.0, 5.0]])
     if prec == "i8":
         phi = np.array([[1.0, 2.0, 4.0], [3.0 + seed % 2, 7.0, 5.0]])
+    if prec == "nan":
+        # a missing data value: every bin its cell overlaps is missing too (and so is the column total), the other bins
+        # of the column and the other column are unaffected
+        phi = np.array([[1.0, np.nan, 4.0], [3.0 + seed % 2, -1.0, 5.0]])
     da = xr.DataArray(phi.astype(np.float32 if prec in ("f4", "mixed") else np.int64 if prec == "i8" else np.float64), dims=["x", "zc"], name="heat")
     if prec in ("shared", "tdnone"):
         profs = [profs[0], profs[0]]
@@ -236,7 +240,7 @@ def api_case(rec, pa, pb, bi, where, layout, chunk, tkind, seed, only=False, pre
     Ws = [R.overlap_weights(t, bins) for t in theta]
     nontriv = True
     rec.case(("api", pa, pb, bi, where, layout, tuple(chunk or ()), tkind, prec), nontriv, sample=case)
-    tol = 1e-9 if prec in ("f8", "i8", "shared", "tdnone", "metrics") else 1e-5
+    tol = 1e-9 if prec in ("f8", "i8", "shared", "tdnone", "metrics", "nan") else 1e-5
     try:
         with warnings.catch_warnings():
             warnings.simplefilter("ignore")
@@ -261,6 +265,19 @@ def api_case(rec, pa, pb, bi, where, layout, chunk, tkind, seed, only=False, pre
         return
     for c in range(2):
         W, amb = Ws[c]
+        if prec == "nan" and c == 0:
+            if amb:
+                continue  # a homogeneous cell on a bin edge may go to either bin: not judged together with missing data
+            for j in range(m):
+                w_nan = float(W[j][1])
+                e_j = sum(float(W[j][i]) * phi[c, i] for i in (0, 2))
+                if w_nan > 0 and not np.isnan(got[c, j]):
+                    rec.violation("api", "missing-data-value-turned-into-a-number", dict(case, column=c, bin=j), "nan", float(got[c, j]))
+                    return
+                if w_nan == 0 and not (np.isnan(got[c, j]) or abs(got[c, j] - e_j) < tol):
+                    rec.violation("api", "values:next-to-missing-data", dict(case, column=c, bin=j), e_j, float(got[c, j]))
+                    return
+            continue
         exp = np.array([sum(float(W[j][i]) * phi[c, i] for i in range(nz) if i not in amb) for j in range(m)])
         resid = got[c] - exp
         if amb:
@@ -318,6 +335,8 @@ def api_cases(tier):
                         out.append((pa, pb, bi, where, variants[0][0], None, variants[0][2], "tdnone"))
                 layout, chunk, tkind = variants[0]
                 out.append((pa, pb, bi, where, layout, chunk, tkind, "metrics"))
+                if where == "outer":
+                    out.append((pa, pb, bi, where, layout, chunk, tkind, "nan"))
     return out
 
 
